@@ -52,6 +52,8 @@ def _roles(repo: Repo, s: Side, r: Side) -> tuple[dict[str, str], dict[str, str]
 
 
 def run(chk: Check, repo: Repo) -> None:
+    from .ds_common import block0_octet_is_the_wire_octet
+    block0_octet_is_the_wire_octet(chk, repo)
     snd = sides(repo, "SecureData.init_from_plain_apdu")
     rcv = sides(repo, "SecureData.get_plain_apdu")
     chk.unit(snd["CCM_ENCRYPTION"].fi)
